@@ -32,6 +32,9 @@ def main():
     ap.add_argument("--patch")
     ap.add_argument("--tier", default="quick")
     ap.add_argument("--no-suite", action="store_true")
+    ap.add_argument("--reuse-suite", action="store_true",
+                    help="keep the recorded suite result when the stored "
+                         "patch is byte-identical (re-runs demo and checks)")
     a = ap.parse_args()
     checks = (a.checks or a.prop).split(",")
     patch = os.path.abspath(a.patch or os.path.join(a.src, "patch.diff"))
@@ -61,7 +64,13 @@ def main():
                 return 2
         rc_with, out_with = sh("%s %s" % (PY, demo), cwd=wt)
         suite = "skipped"
-        if not a.no_suite:
+        old_meta = os.path.join(VERIF, "seeded", a.name, "meta.json")
+        old_patch = os.path.join(VERIF, "seeded", a.name, "patch.diff")
+        if a.reuse_suite and os.path.exists(old_meta) and \
+                open(old_patch).read() == open(patch).read():
+            suite = json.load(open(old_meta))["confirmed"][
+                "suite_with_change"]
+        elif not a.no_suite:
             rc, out = sh("%s -m pytest -q -p no:cacheprovider --timeout=900 "
                          "traits 2>&1 | tail -1" % PY, cwd=wt)
             suite = out.strip()
